@@ -1,5 +1,6 @@
 import ScVerif.Base.Line
 import ScVerif.C01.Flat
+import ScVerif.C01.Opts
 /-!
 Driver handler for C01 (stateful): one resource (Value or Collection over the `Flat` message) per
 driver process or per `newc` / `newv` line.
@@ -15,9 +16,10 @@ get id=<id> [rm=<mask>]                    -> <msg>|nil
 list [rm=<mask>] [inc=<name>]              -> [msg;msg;…]
 vset msg=<msg> <write opts>                -> val=… err=… ev=[…] | st=<msg|nil>@t clk=n
 vget [rm=<mask>]                           -> <msg>|nil
-write opts: wt=<n> um=<mask> rs=<mask> ev=<msg> xa chk=<name> am bf=<name> af=<name> nw mw=<mask>
-            cia ccb gid icb
-mask: 0 (no paths) or letters a,s,c,f,r,x separated by commas;   msg: <a>/<s>/<c|->[/<f: -|c:d>/<r: -|n.n.n>]
+write opts: wt=<n> um=<mask|nil> mum=<mask> rs=<mask|nil> ev=<msg|nil> xa chk=<name> am am0 bf=<name>
+            af=<name> nw mw=<mask> cia ccb gid icb      — applied IN THE ORDER GIVEN, repeats allowed
+read opts:  rm=<mask|nil> inc=<name|nil> uo uo0 bp bp0   — likewise
+mask: 0 (no paths) or paths a,s,c,f,r,x,fc,fd separated by commas;   msg: <a>/<s>/<c|->[/<f: -|c:d>/<r: -|n.n.n>]
 ```
 -/
 namespace ScVerif.C01
@@ -37,7 +39,7 @@ def kvHas (kv : KV) (k : String) : Bool := (kvGet kv k).isSome
 
 def parseField? : String → Option Field
   | "a" => some .a | "s" => some .s | "c" => some .c | "f" => some .f | "r" => some .r
-  | "x" => some .x | _ => none
+  | "x" => some .x | "fc" => some .fc | "fd" => some .fd | _ => none
 
 def parseMask? (s : String) : Option Mask :=
   if s = "0" then some [] else (s.splitOn ",").mapM parseField?
@@ -77,29 +79,51 @@ def optKey {α : Type} (kv : KV) (k : String) (p : String → Option α) : Optio
   | none => some none
   | some v => (p v).map some
 
-def knownWriteKeys : List String :=
-  ["id", "msg", "wt", "um", "rs", "ev", "xa", "chk", "am", "bf", "af", "nw", "mw", "cia", "ccb", "gid", "icb"]
+def parseMaskOrNil? (s : String) : Option (Option Mask) :=
+  if s = "nil" then some none else (parseMask? s).map some
 
-def parseWriteReq? (kv : KV) : Option (WriteReq Msg Mask) := do
-  if !(kv.all (fun p => knownWriteKeys.contains p.1)) then none
-  let wt ← optKey kv "wt" parseInt?
-  let um ← optKey kv "um" parseMask?
-  let rs ← optKey kv "rs" parseMask?
-  let ev ← optKey kv "ev" parseMsg?
-  let chk ← optKey kv "chk" namedCheck
-  let bf ← optKey kv "bf" namedBefore
-  let af ← optKey kv "af" namedAfter
-  let mw ← optKey kv "mw" parseMask?
-  pure { writeTime := wt, updateMask := um, resetMask := rs, expectedValue := ev,
-         expectAbsent := kvHas kv "xa", expectedCheck := chk, allowMissing := kvHas kv "am",
-         before := bf, after := af, nilWritable := kvHas kv "nw", moreWritable := mw,
-         createIfAbsent := kvHas kv "cia", createdCb := kvHas kv "ccb",
-         genEmptyID := kvHas kv "gid", idCb := kvHas kv "icb" }
+/-- one write-option token (`id=`/`msg=` are the call's arguments, not options) -/
+def parseWOpt? : String × String → Option (List (WOpt Msg Mask))
+  | ("id", _) => some []
+  | ("msg", _) => some []
+  | ("wt", v) => (parseInt? v).map fun t => [.writeTime t]
+  | ("um", v) => (parseMaskOrNil? v).map fun m => [.updateMask m]
+  | ("mum", v) => (parseMask? v).map fun m => [.moreUpdateMask m]
+  | ("rs", v) => (parseMaskOrNil? v).map fun m => [.resetMask m]
+  | ("ev", v) => if v = "nil" then some [.expectedValue none] else (parseMsg? v).map fun m => [.expectedValue (some m)]
+  | ("xa", _) => some [.expectAbsent]
+  | ("chk", v) => (namedCheck v).map fun f => [.expectedCheck f]
+  | ("am", _) => some [.allowMissing true]
+  | ("am0", _) => some [.allowMissing false]
+  | ("bf", v) => (namedBefore v).map fun f => [.before f]
+  | ("af", v) => (namedAfter v).map fun f => [.after f]
+  | ("nw", _) => some [.allFieldsWritable]
+  | ("mw", v) => (parseMask? v).map fun m => [.moreWritable m]
+  | ("cia", _) => some [.createIfAbsent]
+  | ("ccb", _) => some [.createdCallback]
+  | ("gid", _) => some [.genIDIfAbsent]
+  | ("icb", _) => some [.idCallback]
+  | _ => none
 
-def parseReadReq? (kv : KV) : Option (ReadReq Msg Mask) := do
-  let rm ← optKey kv "rm" parseMask?
-  let inc ← optKey kv "inc" namedInclude
-  pure { readMask := rm, incl := inc }
+/-- the option tokens of a write, IN THE ORDER GIVEN (repeats allowed) -/
+def parseWriteOpts? (kv : KV) : Option (List (WOpt Msg Mask)) := (kv.mapM parseWOpt?).map List.flatten
+
+def parseWriteReq? (kv : KV) : Option (WriteReq Msg Mask) :=
+  (parseWriteOpts? kv).map (computeWriteConfig flatOps)
+
+def parseROpt? : String × String → Option (List (ROpt Msg Mask))
+  | ("id", _) => some []
+  | ("rm", v) => (parseMaskOrNil? v).map fun m => [.readMask m]
+  | ("inc", v) => if v = "nil" then some [.incl none] else (namedInclude v).map fun f => [.incl (some f)]
+  | ("uo", _) => some [.other]
+  | ("uo0", _) => some [.other]
+  | ("bp", _) => some [.other]
+  | ("bp0", _) => some [.other]
+  | _ => none
+
+def parseReadOpts? (kv : KV) : Option (List (ROpt Msg Mask)) := (kv.mapM parseROpt?).map List.flatten
+
+def parseReadReq? (kv : KV) : Option (ReadReq Msg Mask) := (parseReadOpts? kv).map computeReadConfig
 
 def parseRng? (s : String) : Option (List Nat) :=
   if s = "" then some [] else (s.splitOn ",").mapM parseNat?
@@ -194,35 +218,35 @@ def handleOpt (st : DrvState) (toks : List String) : Option (DrvState × String)
     | "upd", .coll cfg s =>
       let id ← kvGet kv "id"
       let msg ← (kvGet kv "msg").bind parseMsg?
-      let wr ← parseWriteReq? kv
-      let (o, s') := Coll.update cfg s id msg wr
+      let opts ← parseWriteOpts? kv
+      let (o, s') := Coll.updateO cfg s id msg opts
       pure (.coll cfg s', showCOut o ++ " | " ++ showCState s')
     | "add", .coll cfg s =>
       let id ← kvGet kv "id"
       let msg ← (kvGet kv "msg").bind parseMsg?
-      let wr ← parseWriteReq? kv
-      let (o, s') := Coll.add cfg s id msg wr
+      let opts ← parseWriteOpts? kv
+      let (o, s') := Coll.addO cfg s id msg opts
       pure (.coll cfg s', showCOut o ++ " | " ++ showCState s')
     | "del", .coll cfg s =>
       let id ← kvGet kv "id"
-      let wr ← parseWriteReq? kv
-      let (o, s') := Coll.delete cfg s id wr
+      let opts ← parseWriteOpts? kv
+      let (o, s') := Coll.deleteO cfg s id opts
       pure (.coll cfg s', showCOut o ++ " | " ++ showCState s')
     | "get", .coll cfg s =>
       let id ← kvGet kv "id"
-      let ro ← parseReadReq? kv
-      pure (st, showOptMsg (Coll.get cfg s id ro))
+      let opts ← parseReadOpts? kv
+      pure (st, showOptMsg (Coll.getO cfg s id opts))
     | "list", .coll cfg s =>
-      let ro ← parseReadReq? kv
-      pure (st, showList ((Coll.list cfg s ro).map showMsg))
+      let opts ← parseReadOpts? kv
+      pure (st, showList ((Coll.listO cfg s opts).map showMsg))
     | "vset", .val cfg s =>
       let msg ← (kvGet kv "msg").bind parseMsg?
-      let wr ← parseWriteReq? kv
-      let (o, s') := Value.set cfg s msg wr
+      let opts ← parseWriteOpts? kv
+      let (o, s') := Value.setO cfg s msg opts
       pure (.val cfg s', showVOut o ++ " | " ++ showVState s')
     | "vget", .val cfg s =>
-      let ro ← parseReadReq? kv
-      pure (st, showOptMsg (Value.get cfg s ro))
+      let opts ← parseReadOpts? kv
+      pure (st, showOptMsg (Value.getO cfg s opts))
     | _, _ => none
 
 def handleS (st : DrvState) (toks : List String) : DrvState × String :=
